@@ -437,7 +437,8 @@ def dbg_shape(col, pid, rng, n, edges):
             col.evaluations += 1
             col.counters["c13_failing_debug_node_cases"] += 1
             ent = [e["node"] for e in log if e["kind"] == "FENTER"]
-            failed = any(e["kind"] == "XEXIT" and not e["ok"] and e["node"] == ids[j] for e in log)
+            # judged at the function boundary (the probe raised), not at ExecNode.execute (which an edit may make swallow it)
+            failed = any(e["kind"] == "FEXIT" and not e["ok"] and e["node"] == ids[j] for e in log)
             if failed:
                 desc = nx.descendants(S.site_graph(spec), j)
                 ran = [ids[q] for q in desc if ids[q] in ent]
